@@ -83,4 +83,16 @@ theorem cutCmdThr_omitted (input : Except String (List InTree)) : cutCmdThr none
   | error p => rfl
   | ok trees => exact cutEachThr_fin (1 / 2) trees 0 ""
 
+/-- without an underscore and without a `0x` prefix the extended reading of `-l` is the one of round 7 -/
+theorem parseThrX_plain (s : String) (h1 : s.toList.contains '_' = false) (h2 : hasHexPrefix s.toList = false) :
+    parseThrX s = parseThr s := by
+  unfold parseThrX
+  simp only [h1, h2, Bool.not_false, Bool.and_self, if_true]
+
+theorem cutCmdThrX_plain (s : String) (input : Except String (List InTree))
+    (h1 : s.toList.contains '_' = false) (h2 : hasHexPrefix s.toList = false) :
+    cutCmdThrX (some s) input = cutCmdThr (some s) input := by
+  unfold cutCmdThrX cutCmdThr
+  simp only [parseThrX_plain s h1 h2]
+
 end Gotree.C14.Cli
